@@ -31,7 +31,7 @@ CMDS: list[dict] = [
     {"verb": "RQ", "src": HGI, "dst": CTL, "code": "30C9", "payload": "01", "reply": "0107D0"},
     {"verb": "RQ", "src": HGI, "dst": CTL, "code": "000A", "payload": "03", "reply": "031001F40DAC"},
     {"verb": "RQ", "src": HGI, "dst": CTL, "code": "0418", "payload": "000003",
-     "reply": "004000B0030004000000CB955F71FFFFFF70001283B3"},
+     "reply": "004003B00403040000005317390480FFFF70001283B3"},
     {"verb": "RQ", "src": HGI, "dst": "10:048122", "code": "3220", "payload": "0000050000", "reply": "00C0050000"},
     {"verb": "RQ", "src": HGI, "dst": CTL, "code": "0404", "payload": "01200008000100", "reply": "012000082901036816"},
     {"verb": "RQ", "src": HGI, "dst": CTL, "code": "0004", "payload": "0500", "reply": "05004B69746368656E000000000000000000000000"},
